@@ -239,10 +239,40 @@ theorem alias_listing_reparse (n v : List Char) (h : crossBracket n v = false) :
   rw [e, dropNl_append_nl, hp, readBack_prefix _ hq, alias_entry_reparse n v h]
   rfl
 
+/-- the separator is `-- ` or nothing -/
+theorem sepOf_cases (n : List Char) : Listing.sepOf n = [] ∨ Listing.sepOf n = "-- ".toList := by
+  unfold Listing.sepOf
+  cases n with
+  | nil => exact Or.inl rfl
+  | cons c cs =>
+    by_cases h : Generated.QuoteTables.separatorPrefixes.contains c = true
+    · right; simp only [h, if_true]
+    · left
+      have : Generated.QuoteTables.separatorPrefixes.contains c = false := by simpa using h
+      simp only [this, Bool.false_eq_true, if_false]
+
+/-- ★ `listing_operand_safe`: over the separator characters extracted from `print_one`, for EVERY name the
+    operand printed by `typeset -p` / `export -p` / `readonly -p` cannot be taken for an option by the
+    argument parser: a name beginning with `-` or `+` is always preceded by `--`. -/
+theorem listing_operand_safe (name : List Char) : Listing.operandSafe name = true := by
+  have ht : ∀ c ∈ Listing.optionPrefixChars, c ∈ Generated.QuoteTables.separatorPrefixes := by decide
+  unfold Listing.operandSafe Listing.sepOf
+  cases name with
+  | nil => simp
+  | cons c cs =>
+    by_cases h : c ∈ Listing.optionPrefixChars
+    · have h2 : Generated.QuoteTables.separatorPrefixes.contains c = true :=
+        List.contains_iff_mem.mpr (ht c h)
+      have h3 : "-- ".toList.isEmpty = false := by decide
+      simp only [h2, if_true, h3]
+      rfl
+    · simp
+      exact Or.inr h
+
 /-- option words `typeset -p` prints before the name -/
 def typesetOptWords (v : Listing.Var) : List (List Char) :=
   (if v.readonly then ["-r".toList] else []) ++ (if v.exported then ["-x".toList] else [])
-    ++ (if v.name.head? = some '-' then ["--".toList] else [])
+    ++ (if Listing.sepOf v.name = [] then [] else ["--".toList])
 
 /-- ★ `listing_reparse`, `typeset -p` scalar lines: for every variable with a scalar value (any name
     without `=`, any value, any attributes) the printed line is `typeset ` + arguments + newline, and the
@@ -256,10 +286,13 @@ theorem typeset_scalar_listing_reparse (v : Listing.Var) (s : List Char)
       have h1 : "-r ".toList = "-r".toList ++ [' '] := by decide
       have h2 : "-x ".toList = "-x".toList ++ [' '] := by decide
       have h3 : "-- ".toList = "--".toList ++ [' '] := by decide
-      unfold Listing.typesetOpts Listing.sepOf typesetOptWords
-      rw [h1, h2, h3]
-      cases v.readonly <;> cases v.exported <;> by_cases hh : v.name.head? = some '-' <;>
-        simp [hh, prefixSp]
+      unfold Listing.typesetOpts typesetOptWords
+      rw [h1, h2]
+      rcases sepOf_cases v.name with hs | hs
+      · rw [hs]
+        cases v.readonly <;> cases v.exported <;> simp [prefixSp]
+      · rw [hs, h3]
+        cases v.readonly <;> cases v.exported <;> simp [prefixSp]
     have h4 : "typeset ".toList = "typeset".toList ++ [' '] := by decide
     unfold Listing.printVar
     simp only [hn, Bool.false_eq_true, if_false, hv]
